@@ -109,6 +109,8 @@ type Added struct {
 	Results map[string]*plugin.Result
 	Dirs    []string
 	Refused string // non-empty if a plugin refused (error) – nothing written for it
+	// Extras: option constructors of the emitted Go client beyond the documented ones, per service full name
+	Extras map[string][]ExtraOpt
 }
 
 func (l *Lab) write(name, content string) (string, error) {
@@ -128,6 +130,7 @@ func (l *Lab) write(name, content string) (string, error) {
 func (l *Lab) Add(req *pluginpb.CodeGeneratorRequest, opt PkgOpt) (*Added, error) {
 	ad := &Added{Results: map[string]*plugin.Result{}}
 	dirs := map[string]bool{}
+	clientSrc := map[string]string{}
 	pg := l.TB.Run("go", req, plugin.RunOpt{})
 	if !pg.OK() {
 		return nil, fmt.Errorf("protoc-gen-go failed: crash=%s err=%s stderr=%s", pg.Crash, pg.Error, pg.Stderr)
@@ -161,6 +164,9 @@ func (l *Lab) Add(req *pluginpb.CodeGeneratorRequest, opt PkgOpt) (*Added, error
 			continue
 		}
 		for n, c := range res.Files {
+			if p == "go-client" {
+				clientSrc[n] = c
+			}
 			d, err := l.write(n, c)
 			if err != nil {
 				return nil, err
@@ -175,10 +181,11 @@ func (l *Lab) Add(req *pluginpb.CodeGeneratorRequest, opt PkgOpt) (*Added, error
 		}
 	}
 	if !opt.NoGlue && ad.Refused == "" {
-		gl, err := Glue(req, feat, "lab/labrt", opt.Helpers)
+		gl, extras, err := GlueX(req, feat, "lab/labrt", opt.Helpers, clientSrc)
 		if err != nil {
 			return nil, err
 		}
+		ad.Extras = extras
 		for n, c := range gl {
 			if _, err := l.write(n, c); err != nil {
 				return nil, err
